@@ -172,7 +172,19 @@ class ExprMixin:
 
     def e_Dict(self, node, st):
         if any(k is None for k in node.keys):
-            raise Unsupported("dict unpacking", node)
+            from . import models
+
+            cur = None
+            for k, vnode in zip(node.keys, node.values):
+                if k is None:
+                    if cur is not None:
+                        raise Unsupported("dict unpacking not in first position", node)
+                    cur = self.eval(vnode, st)
+                else:
+                    if cur is None:
+                        raise Unsupported("dict unpacking not in first position", node)
+                    cur = models.set_item(self, st, cur, self.eval(k, st), self.eval(vnode, st), node)
+            return cur
         ks = [self.eval(k, st) for k in node.keys]
         vs = [self.eval(v, st) for v in node.values]
         if all(is_const(k) for k in ks):
@@ -285,6 +297,8 @@ class ExprMixin:
         recv = self.deopt(recv, st, node)
         if isinstance(recv.ty, T.Ref):
             cs = self.class_of(recv.ty)
+            if name in cs.derived:
+                return cs.derived[name](self, st, recv)
             if name in cs.fields or (cs.dynamic and (cs.name, name) in st.heap):
                 return self.read_field(st, recv, name)
             if self.find_method(cs, name) is not None:
@@ -309,9 +323,24 @@ class ExprMixin:
             return i % n if n else 0
         iz = z3.IntVal(i) if isinstance(i, int) else i
         nz = z3.IntVal(n) if isinstance(n, int) else n
-        j = z3.If(iz < 0, iz + nz, iz) if not isinstance(i, int) else (iz + nz if i < 0 else iz)
+        if isinstance(i, int):
+            j = iz + nz if i < 0 else iz
+        elif self.entails(st, iz >= 0):
+            j = iz
+        else:
+            j = z3.If(iz < 0, iz + nz, iz)
         self.safety(st, z3.And(j >= 0, j < nz), what, node)
         return j
+
+    def entails(self, st, fact) -> bool:
+        """Cheap in-process check that the path condition implies `fact` (unknown -> False)."""
+        sol = z3.Solver()
+        sol.set("timeout", 200)
+        for p in st.pc:
+            if not z3.is_quantifier(p):
+                sol.add(p)
+        sol.add(z3.Not(fact))
+        return sol.check() == z3.unsat
 
     def deopt(self, v: Val, st, node=None) -> Val:
         """Use of an Optional value where a value is required: obligation `is not None`."""
@@ -362,6 +391,8 @@ class ExprMixin:
             s = t.sort()
             self.safety(st, z3.Select(s.dom(lift(recv)), k), "KeyError", node)
             return Val(t.v, z3.Select(s.map(lift(recv)), k))
+        if isinstance(t, T.Map):
+            return Val(t.v, z3.Select(lift(recv), lift(idx, t.k)))
         if isinstance(t, T.Ref):
             cs = self.class_of(t)
             if cs.getitem is None:
